@@ -345,6 +345,8 @@ def check(ctx):
         ctx.cov["evaluations"] += 1
         inp = {"program": progs.source_of(p)}
         st = r.get("status")
+        if st == "skipped":
+            continue
         if st in ("crash", "panic"):
             ctx.violation("name resolution / evaluation does not finish normally on a shadowing-heavy program", inp, "a result", r.get("msg"))
             continue
